@@ -111,7 +111,27 @@ class Execution:
                 self.shim.finish()
         return self
 
+    def _run_op(self, t0):
+        from .opworld import OpWorld
+
+        w = OpWorld(self.desc, self.dev, shim=self.shim)
+        self.w = w
+        mons = [mc(self) for mc in self.monitor_classes]
+        self.monitors = mons
+        w.monitors = mons
+        self.canon = None
+        pre = h64(("op", self.desc.get("op"), self.desc.get("pop"), self.desc.get("box"), self.desc.get("maximize")))
+        self.states.add(pre)
+        w.run_op()
+        post = h64(("op-out", [v.tobytes() for v in w.log.x], w.log.v))
+        self.states.add(post)
+        self.transitions.add(h64((pre, tuple(self.dev), post)))
+        for m in mons:
+            m.end(None)
+
     def _run(self, t0):
+        if "op" in self.desc:
+            return self._run_op(t0)
         w = World(self.desc, self.dev, shim=self.shim)
         self.w = w
         self.tree = tree = w.tree
@@ -149,6 +169,8 @@ class Execution:
             h.update(str(len(self.w.log)).encode())
         if getattr(self, "canon", None) is not None:
             h.update(self.canon.obs.digest())
+        elif self.w is not None:
+            h.update(b"".join(v.tobytes() for v in self.w.log.x))
         h.update(self.status.encode())
         if self.tree is not None and self.status == "ok":
             h.update(tree_digest(self.tree).encode())
@@ -156,6 +178,8 @@ class Execution:
 
     def outcome(self):
         if self.tree is None:
+            if self.w is not None and hasattr(self.w, "outputs"):
+                return h64(("op", self.status, len(self.w.log), tuple(sorted(self.flags))))
             return h64(("noworld", self.status))
         try:
             return h64((self.status, canonical_state(self.tree, self.canon.seen_true)))
